@@ -348,13 +348,14 @@ func init() {
 			"bk.rawconn 2 101500044d5154540426003c00016800032b2f62000177", "bk.drop 2", "bk.conn 3 4 1 6333", "bk.send 3 SUBSCRIBE id=1 f=23:0"} {
 			emit(l)
 		}
-		// F28: maximum packet size 100, a 101-byte PUBLISH to the reference's topic is accepted and delivered;
-		// a 102-byte one (remaining length 100) is refused
+		// maximum packet size 100: a 100-byte PUBLISH to the reference's topic is accepted and delivered; a
+		// 101-byte one (remaining length 99: only the length byte makes it too large — the former finding F28,
+		// it was accepted) is refused and the connection closed
+		p98 := append([]byte{0x30, 98}, append(rStr("r/t"), []byte(strings.Repeat("z", 93))...)...)
 		p99 := append([]byte{0x30, 99}, append(rStr("r/t"), []byte(strings.Repeat("z", 94))...)...)
-		p100 := append([]byte{0x30, 100}, append(rStr("r/t"), []byte(strings.Repeat("z", 95))...)...)
 		for _, l := range []string{"reset", "bk.new maxpkt=100", "bk.conn 1 4 1 726566", "bk.send 1 SUBSCRIBE id=1 f=722f74:0",
-			"bk.rawconn 2 100d00044d5154540402003c000168", "bk.raw 2 " + hx(p99), "bk.send 1 PUBLISH q=1 id=2 t=722f74 p=6d31",
-			"bk.raw 2 " + hx(p100), "bk.send 1 PUBLISH q=1 id=3 t=722f74 p=6d32"} {
+			"bk.rawconn 2 100d00044d5154540402003c000168", "bk.raw 2 " + hx(p98), "bk.send 1 PUBLISH q=1 id=2 t=722f74 p=6d31",
+			"bk.raw 2 " + hx(p99), "bk.send 1 PUBLISH q=1 id=3 t=722f74 p=6d32"} {
 			emit(l)
 		}
 		for done := 17; done < n; {
@@ -488,7 +489,9 @@ func init() {
 						case m < 6: // publishes that reach the reference client
 							raw = append(raw, buildClientPacket(hostileVer, []string{"PUBLISH", fmt.Sprintf("q=%d", r.Intn(3)), fmt.Sprintf("id=%d", 1+r.Intn(5)),
 								"t=" + hs("r/t"), "p=" + hs(fmt.Sprintf("h%d", done)), pick(r, []string{"", "", "r=1"})})...)
-						case m < 7 && maxpkt > 0: // F28: a packet of maxpkt+1 … maxpkt+4 bytes
+						case m < 7 && maxpkt > 0: // a packet of maxpkt+1 … maxpkt+4 bytes: too large by its length bytes alone (refused; the former F28)
+							fatal = true
+							j = items
 							rem := maxpkt - 1
 							lb := rVarint(rem)
 							for pad := r.Intn(3); pad > 0 && len(lb) < 4; pad-- {
